@@ -21,6 +21,8 @@ where C: FullDuplexMultiChannel<ItemType = u32> + Send + Sync + 'static,
         let (stream, id) = chan.create_stream_for_new_events();
         *table[id as usize].lock().unwrap() = Some(Arc::new(Mutex::new(stream)));
     }
+    let at_park: &'static Vec<AtomicBool> = Box::leak(Box::new((0..case.progs.len()).map(|_| AtomicBool::new(false)).collect()));
+    let seen: &'static Mutex<Vec<(i64, usize)>> = Box::leak(Box::new(Mutex::new(vec![])));   // (value, address of the shared payload)
     verif::reset(case.progs.len());
     let mut handles = vec![];
     for (tid, prog) in case.progs.iter().enumerate() {
@@ -44,20 +46,22 @@ where C: FullDuplexMultiChannel<ItemType = u32> + Send + Sync + 'static,
                         let mut cx = Context::from_waker(&waker);
                         loop {
                             match stream.poll_next_unpin(&mut cx) {
-                                Poll::Ready(Some(item)) => { ret(tid, 12, item.as_i64(), i as i64); drop(item); if !drive { break } },
+                                Poll::Ready(Some(item)) => { seen.lock().unwrap().push((item.as_i64(), item.addr())); ret(tid, 12, item.as_i64(), i as i64); drop(item); if !drive { break } },
                                 Poll::Ready(None)       => { ret(tid, 14, i as i64, 0); break },
                                 Poll::Pending           => {
                                     ret(tid, 13, i as i64, 0);
                                     if !drive { break }
                                     loop {
                                         let mut notified = false;
-                                        verif::yield_value("parked", NOTIFIED_BASE + i, || { notified = task.notified.swap(false, SeqCst); notified as u64 });
+                                        at_park[tid].store(true, SeqCst);
+                                        verif::yield_value("parked", NOTIFIED_BASE + i, || { at_park[tid].store(false, SeqCst); notified = task.notified.swap(false, SeqCst); notified as u64 });
                                         if notified { break }
                                     }
                                 },
                             }
                         }
                     },
+                    "count" => { let n = chan.running_streams_count(); ret(tid, 15, n as i64, 0) },
                     "create" => {
                         verif::yield_point("yield", 2);
                         let me = verif::suspend();
@@ -86,7 +90,33 @@ where C: FullDuplexMultiChannel<ItemType = u32> + Send + Sync + 'static,
     }
     let mut out = run_schedule(&case.sched, &locs);
     out.push(9);
+    // quiescent: every worker either finished its program or sits parked between two polls -> no operation is in progress
+    let quiescent = (0..case.progs.len()).all(|t| !verif::is_parked(t) || at_park[t].load(SeqCst));
     wind_down(handles, 0);
+    out.push(quiescent as i64);
+    if quiescent {
+        // what every live stream still yields when polled now, without any further send
+        let waker = futures::task::noop_waker();
+        let mut cx = Context::from_waker(&waker);
+        for (i, slot) in table.iter().enumerate() {
+            let stream = slot.lock().unwrap_or_else(|p| p.into_inner()).clone();
+            let Some(stream) = stream else { continue };
+            let mut stream = stream.lock().unwrap_or_else(|p| p.into_inner());
+            let mut got = vec![];
+            for _ in 0..1000 {
+                match stream.poll_next_unpin(&mut cx) {
+                    Poll::Ready(Some(item)) => { seen.lock().unwrap().push((item.as_i64(), item.addr())); got.push(item.as_i64()); },
+                    _ => break,
+                }
+            }
+            out.push(i as i64); out.push(got.len() as i64); out.extend(got);
+        }
+    }
+    // values that were observed at more than one address (the listeners did not share one allocation)
+    let seen = seen.lock().unwrap();
+    let mut bad: Vec<i64> = vec![];
+    for (v, a) in seen.iter() { if seen.iter().any(|(w, b)| w == v && b != a) && !bad.contains(v) { bad.push(*v); } }
+    out.push(-1); out.push(bad.len() as i64); out.extend(bad);
     out
 }
 
